@@ -6,6 +6,7 @@
 -/
 import Rngs.Model.Xoshiro
 import Rngs.Model.XorShift
+import Rngs.Model.Jitter
 import Rngs.Lib.XorLinear
 namespace Rngs
 
@@ -32,5 +33,24 @@ macro "ext_tie_seed" f:ident : tactic =>
     | (funext seed
        simp only [$f:ident, XorShift.fromSeed, S4.decode32, S4.zero, XorShift.BAD_SEED, S4.mk.injEq]
        split <;> rename_i h <;> simp_all))
+
+/-- `stir_pool` -/
+macro "ext_tie_stir" f:ident : tactic =>
+  `(tactic| first
+    | (intro st; rfl))
+
+/-- a fold over `1..65` in the source is a fold over `List.range 64` with `i = k + 1` in the model -/
+theorem foldl_range'_one {α : Type} (f : α → Nat → α) (a : α) (n : Nat) :
+    List.foldl f a (List.range' 1 n) = List.foldl (fun acc k => f acc (k + 1)) a (List.range n) := by
+  rw [List.range'_eq_map_range]
+  simp only [List.foldl_map, Nat.add_comm]
+
+macro "ext_tie_lfsr" f:ident : tactic =>
+  `(tactic| first
+    | rfl
+    | (funext data time; rfl)
+    | (funext data time
+       simp only [$f:ident, Jitter.lfsr, foldl_range'_one]
+       rfl))
 
 end Rngs
